@@ -740,4 +740,33 @@ theorem textfieldDraw_body_eq_model (R : Ro) (c : Ctx) (st : Nat) (value : List 
             simp [fieldStep, hsty, restyle, Step.toRes, ofInt_zero]
             cases writeCell exactA s0 col0 0 { g := ch.g, w := ch.w, st := st } <;> simp [Step.toRes, u16]
 
+/-! ### non-vacuity: the hypotheses on `R` are met by the obvious instances -/
+
+/-- a soft-wrapped Text of three lines, scanned for width 5 (`textFindContainerSize_soft_body_eq_model`, `textDrawSoftwrap_*`) -/
+example : ∃ R : Ro, R.fields "Softwrap" = some (.bool true) ∧ R.fields "Content" = some .text ∧ R.fields "Style" = some (.sty 3) ∧
+    R.wrapW = (5 : UInt16) ∧ R.soft.length = 3 :=
+  ⟨{ noRo with
+      fields := fun f => if f = "Softwrap" then some (.bool true) else if f = "Content" then some .text
+                         else if f = "Style" then some (.sty 3) else none,
+      wrapW := 5, soft := [[{ g := 7, w := 1, st := 3 }], [], [{ g := 8, w := 2, st := 3 }]] },
+   by simp, by simp, by simp, rfl, rfl⟩
+
+/-- a Center around a soft-wrapped Text (`centerDraw_body_eq_model`): the child's Draw is the model's -/
+example : ∃ R : Ro, R.fields "Child" = some (.wid 1) ∧
+    R.childDraw = drawWith exactA textMode richMode (.text false 0 [[{ g := 7, w := 1, st := 0 }]]) :=
+  ⟨{ noRo with fields := fun f => if f = "Child" then some (.wid 1) else none,
+               childDraw := drawWith exactA textMode richMode (.text false 0 [[{ g := 7, w := 1, st := 0 }]]) },
+   by simp, rfl⟩
+
+/-- `render` with the recursive calls being the model (`render_body_eq_model`) -/
+example : ∃ R : Ro, R.render = render := ⟨{ noRo with render := render }, rfl⟩
+
+/-- a TextField holding two grapheme clusters with the cursor behind the first (`textfieldDraw_body_eq_model`) -/
+example : ∃ R : Ro, R.fields "Value" = some (.clusters [[{ g := 7, w := 1, st := 0 }], [{ g := 8, w := 2, st := 0 }]]) ∧
+    R.fields "Style" = some (.sty 2) ∧ R.fields "cursor" = some (.int 1) :=
+  ⟨{ noRo with fields := fun f =>
+        if f = "Value" then some (.clusters [[{ g := 7, w := 1, st := 0 }], [{ g := 8, w := 2, st := 0 }]])
+        else if f = "Style" then some (.sty 2) else if f = "cursor" then some (.int 1) else none },
+   by simp, by simp, by simp⟩
+
 end VaxisModel.Props.C14Body
